@@ -95,6 +95,7 @@ class World:
         self.exit_status = None
         self.mess_seen = {}       # n -> {"mess": bytes, "first_q": int}
         self.env_ino = {}
+        self.visible = set()
         self.qcount = 0
         self.extra_env = {}
         self.alive = False
@@ -344,6 +345,10 @@ class World:
             return
         self._trace_off = getattr(self, "_trace_off", 0) + nl + 1
         for line in data[:nl].split(b"\n"):
+            if b"\tlink\t" in line and b"\ttodo/" in line:
+                m = re.search(rb"\tlink\tintd/(\d+)\ttodo/(\d+)\t0\t0", line)
+                if m:
+                    self.visible.add(int(m.group(2)))      # the only step that makes a message visible to the daemon
             if b"\tfsync\t" in line and b"/queue/intd/" in line:
                 m = re.search(rb"ino:(\d+):[^\t]*/queue/intd/(\d+)", line)
                 if m:
@@ -377,7 +382,7 @@ class World:
                         tp = os.path.join(q, "todo", f)
                         if os.path.exists(tp):
                             rec["todo"] = open(tp, "rb").read()
-                        elif self.envelope_of(n) is not None:
+                        elif n in self.visible and self.envelope_of(n) is not None:
                             rec["todo"] = self.envelope_of(n)
                     ip = self.h.qpath("info", n)
                     if os.path.exists(ip) and "info" not in rec:
@@ -477,6 +482,7 @@ class World:
         self.cmds, self.outstanding, self.history, self.log = [], [], [], b""
         self.mess_seen = {}
         self.env_ino = {}
+        self.visible = set()
         self._trace_off = 0
         self.qcount = 0
         self.offset = 0
